@@ -1176,9 +1176,33 @@ non-trivial = at least one element or an error after more than one token; distin
 	cx.report.hit_n("operator trees with a unary/address node inserted", un.len() as u64);
 	cx.report.exhaustive = true;
 
+	// (1') operands that LOOK related — numbered names with a common stem (register ranges, table entries), the same name twice,
+	// descending pairs, mixed case — under every binary operator, directly inside every container and beside other items:
+	// `{r4 - r7}` is a sequence of ONE subtraction, whatever the names suggest
+	let mut rel: Vec<T> = Vec::new();
+	{
+		let pairs: [(&str, &str); 12] = [("r4", "r7"), ("R0", "R12"), ("r1", "R3"), ("tab0", "tab2"), ("x1", "x3"), ("l_10", "l_20"), ("r7", "r4"), ("r4", "r4"),
+			("a", "b"), ("r9", "r10"), ("v00", "v03"), ("SP", "PC")];
+		for op in 0..10usize
+		{
+			for (a, b) in pairs
+			{
+				let e = T::Bin(op, Box::new(T::Ident(a.to_owned())), Box::new(T::Ident(b.to_owned())));
+				rel.push(e.clone());
+				rel.push(T::Seq(vec![e.clone()]));
+				rel.push(T::Seq(vec![T::Ident("r1".to_owned()), e.clone(), T::Const(3)]));
+				rel.push(T::Seq(vec![e.clone(), e.clone()]));
+				rel.push(T::Addr(Box::new(e.clone())));
+				rel.push(T::Func("f".to_owned(), vec![e.clone(), T::Ident(b.to_owned())]));
+				rel.push(T::Seq(vec![T::Neg(Box::new(e.clone()))]));
+				rel.push(T::Seq(vec![T::Bin(0, Box::new(e.clone()), Box::new(T::Const(1)))]));
+			}
+		}
+	}
+	cx.report.hit_n("related-looking names under every operator in every container", rel.len() as u64);
 	let mut cases: Vec<Case> = Vec::new();
 	let mut trees: Vec<T> = Vec::new();
-	for (set, bucket) in [(&d2, "rt: depth-2 all kinds"), (&ops, "rt: operator trees"), (&un, "rt: operator trees + unary")]
+	for (set, bucket) in [(&d2, "rt: depth-2 all kinds"), (&ops, "rt: operator trees"), (&un, "rt: operator trees + unary"), (&rel, "rt: related-looking names")]
 	{
 		for (i, t) in set.iter().enumerate()
 		{
